@@ -258,6 +258,31 @@ pub fn damage(rd: &Rendered, op: usize, r: &mut Rng) -> Option<(String, String)>
             s.replace_range(line_start..line_start + indent, &" ".repeat(new));
             Some((s, format!("entry line at byte {line_start} dedented from {indent} to {new} (parent at {parent_indent})")))
         }
+        4 if r.chance(1, 3) => {
+            // a scalar inside the flow collection continued on a line no deeper than the block
+            let c: Vec<&Mark> = rd
+                .marks
+                .iter()
+                .filter(|m| matches!(m.kind, MarkKind::FlowScalar { start, end, block_n } if block_n >= 0 && t[start..end].contains(' ')))
+                .collect();
+            let m = pick(r, &c)?;
+            let MarkKind::FlowScalar { start, end, block_n } = m.kind else { unreachable!() };
+            let body = &t[start..end];
+            // a blank between two non-blank characters
+            let good: Vec<usize> = body
+                .match_indices(' ')
+                .map(|x| x.0)
+                .filter(|i| *i > 0 && *i + 1 < body.len() && !body[..*i].ends_with([' ', '\t']) && !body[*i + 1..].starts_with([' ', '\t']))
+                .collect();
+            if good.is_empty() {
+                return None;
+            }
+            let at = start + good[r.below(good.len())];
+            let new = r.below(block_n as usize + 1);
+            let mut s = t.clone();
+            s.replace_range(at..at + 1, &format!("\n{}", " ".repeat(new)));
+            Some((s, format!("scalar inside a flow collection continued at column {new} from byte {at} (enclosing block at {block_n})")))
+        }
         4 => {
             // only lines that carry content (a separator may have been followed by another break)
             let c: Vec<&Mark> = rd
